@@ -75,6 +75,14 @@ def run(thunk):
     return r
 
 
+def run_rec(thunk):
+    """As run(), with RecursionError as an outcome (for checks that feed deep or long inputs on purpose)."""
+    try:
+        return run(thunk)
+    except RecursionError:
+        return ("exc", RecursionError, ("maximum recursion depth exceeded",))
+
+
 def same_value(a, b, typed=True):
     """== plus (optionally) same type; NaN equals NaN; containers elementwise."""
     try:
